@@ -181,10 +181,7 @@ func vProbe() (string, string, string) {
 func H_C18_history() {
 	vRestoreDefaults()
 	f1, f2, f3 := vProbe()
-	n := 1 + vChoose(2)
-	if vTier() == 1 {
-		n = 1 + vChoose(3)
-	}
+	n := 1 + vChoose(vP("calls", 2, 3))
 	for k := 0; k < n; k++ {
 		i := vChoose(vNumSetters)
 		form := vChoose(2)
